@@ -348,4 +348,33 @@ class CompareScale(Sub):
         return out
 
 
-SUBS = [Order(), CompareScale()]
+class OneCell(Sub):
+    name = 'c07.one_cell'
+    rule = ('a one-cell range ([[v]]) or one-item array ([v]) is its item - as under the arithmetic operators: every ordered pair '
+            'over 12 values of all kinds x 6 operators with the left, the right or both operands wrapped gives what the bare '
+            'values give (differential against the scalar evaluation of the same parser); non-trivial = all')
+    min_cases = 100
+    min_nontrivial = 100
+    VALS = [-1, 0, 2.5, D(2019, 11, 20), '', '1', 'a', 'B', True, False, None, 43789]
+
+    def cases(self, tier, unit):
+        for i in range(len(self.VALS)):
+            for j in range(len(self.VALS)):
+                yield [i, j]
+
+    def check(self, env, case):
+        a, b = env.dec(self.VALS[case[0]]), env.dec(self.VALS[case[1]])
+        env.nt()
+        for op in CMP:
+            f = 'xa%sxb' % op
+            base = env.evo(f, vars={'xa': a, 'xb': b})
+            for wa, wb, how in (([[a]], b, 'left operand a one-cell range'), (a, [b], 'right operand a one-item array'),
+                                ([a], [[b]], 'both operands wrapped')):
+                o = env.evo(f, vars={'xa': wa, 'xb': wb})
+                if o != base:
+                    return fail('%s with xa = %r, xb = %r (%s) gives %r, with the bare values xa = %r, xb = %r it gives %r' % (
+                        f, wa, wb, how, o, a, b, base), base, o)
+        return None
+
+
+SUBS = [Order(), OneCell(), CompareScale()]
